@@ -100,11 +100,12 @@ namespace fb {
       bool timedOut = false;
       long lastBeat = sh->beats;
       double lastChange = now();
+      bool started = false;      // a fresh worker of an ASan process may need seconds before its first item (COW faults)
       while (true) {
         pid_t w = waitpid(pid, &status, WNOHANG);
         if (w == pid) break;
-        if (sh->beats != lastBeat) { lastBeat = sh->beats; lastChange = now(); }
-        else if (now() - lastChange > itemTimeout) {
+        if (sh->beats != lastBeat) { lastBeat = sh->beats; lastChange = now(); started = true; }
+        else if (now() - lastChange > (started ? itemTimeout : itemTimeout + 120.0)) {
           timedOut = true;
           kill(pid, SIGKILL);
           waitpid(pid, &status, 0);
